@@ -111,6 +111,8 @@ class Report:
         for key, det in self.known_hits.items():
             print(f"KNOWN-FINDING: property={self.pid} {key}: {self.known[key].get('what', '')}")
         if self.violations:
+            from collections import Counter
+            print("violation keys:", dict(Counter(k for k, _ in self.violations)))
             rdir = os.path.join(EVID, "replay")
             os.makedirs(rdir, exist_ok=True)
             seen = set()
